@@ -92,13 +92,39 @@ def r1_ownership(repo, rep, cls):
         while isinstance(base, ast.Attribute) and base.attr in ('loc', 'iloc', 'at', 'iat'):
           base = base.value
         n_sites += 1
-        exp = norm(rd.expand(n, base, aliases=True)[0])
+        exp_ast = rd.expand(n, base, aliases=True)[0]
+        exp = norm(exp_ast)
         fresh = bool(re.search(r'\.copy\(', exp)) or '.pivot_table(' in exp or exp.startswith(('pd.DataFrame(', 'pandas.DataFrame(')) \
             or exp in ('{}', '[]', 'dict()', 'list()', 'set()') or exp.startswith(('{', '['))
         if exp == 'self._analysis_data':
           # allocated by pivot_table in the same function?
           fresh = any(isinstance(s, ast.Assign) and norm(s.targets[0]) == 'self._analysis_data' and '.pivot_table(' in norm(s.value)
                       for s in walk_no_nested(f.node))
+        if not fresh:
+          # the receiver is the result of a call: pandas/numpy operations that build a new object are fresh; a call whose
+          # result may be the receiver itself or a view of it is not decided; only a plain access path of shared state
+          # (self._data, self._data[...], a parameter) is known to be shared
+          NEW_OBJECT = {'groupby', 'sum', 'mean', 'agg', 'aggregate', 'unstack', 'stack', 'rename', 'reset_index', 'set_index', 'sort_values', 'sort_index', 'merge', 'join',
+                        'assign', 'drop', 'dropna', 'fillna', 'astype', 'pivot', 'melt', 'concat', 'reindex', 'to_frame', 'apply', 'transform', 'map', 'where', 'mask',
+                        'query', 'head', 'tail', 'filter', 'round', 'abs', 'cumsum', 'diff', 'T', 'transpose', 'copy', 'deepcopy', 'pivot_table', 'crosstab', 'DataFrame', 'Series'}
+          cur_, verdict_ = exp_ast, None
+          while True:
+            if isinstance(cur_, ast.Call):
+              nm_ = cur_.func.attr if isinstance(cur_.func, ast.Attribute) else (cur_.func.id if isinstance(cur_.func, ast.Name) else '')
+              if nm_ in NEW_OBJECT and au.kwarg(cur_, 'inplace') is None and au.kwarg(cur_, 'copy') is None:
+                verdict_ = 'fresh'
+              else:
+                verdict_ = 'open'
+              break
+            if isinstance(cur_, (ast.Attribute, ast.Subscript)):
+              cur_ = cur_.value
+              continue
+            break
+          if verdict_ == 'fresh':
+            fresh = True
+          elif verdict_ == 'open':
+            rep.undecided('R1/ownership', '%s: %s' % (f.name, txt[:60]), 'the mutated object `%s` is the result of a call whose result may share storage with its receiver' % exp[:60], f.loc(st))
+            continue
         rep.check(fresh, 'R1/ownership', '%s: mutated object %s is allocated by the class' % (f.name, exp[:50]), f.qualname, txt[:120],
                   'in-place modification %s acts on %s, which is not a fresh copy: the caller\'s frame (or a shared object) is modified'
                   % (txt[:80], exp[:60]), f.loc(st))
@@ -159,6 +185,20 @@ def r2_r3_fit(repo, rep, cls):
     # the mask is negated and applied to self._data
     mask = fn.ast.targets[0].id if isinstance(fn.ast, ast.Assign) and isinstance(fn.ast.targets[0], ast.Name) else None
     applied = False
+    if mask is None and isinstance(fn.ast, ast.Assign) and any(norm(t) == 'self._data' for t in fn.ast.targets):
+      # the membership test is written inside the selection itself: self._data = self._data[~self._data[col].isin(values)]
+      v0 = au.data_core(fn.ast.value)
+      if isinstance(v0, ast.Subscript) and norm(v0.value) in ('self._data', 'self._data.loc'):
+        sl0 = v0.slice
+        if isinstance(sl0, ast.UnaryOp) and isinstance(sl0.op, ast.Invert) and norm(au.data_core(sl0.operand)) == norm(au.data_core(call)):
+          applied = True
+        elif norm(au.data_core(sl0)) == norm(au.data_core(call)):
+          rep.violation('R2/report-equals-removal', fit.qualname, norm(fn.ast),
+                        'the %s membership test selects the rows without negation: the reported rows are kept and all others removed' % key, fit.loc(fn.ast))
+          applied = True
+        else:
+          rep.undecided('R2/report-equals-removal', key, 'the selection `%s` combines the membership test with something else: not followed' % norm(sl0)[:80], fit.loc(fn.ast))
+          continue
     for n in g.nodes:
       if n.kind == 'stmt' and isinstance(n.ast, ast.Assign) and any(norm(t) == 'self._data' for t in n.ast.targets):
         v = n.ast.value
@@ -229,6 +269,29 @@ def r4_r5_aggregation(repo, rep, cls):
         if isinstance(call.func, ast.Attribute) and call.func.attr == 'pivot_table':
           piv = (n, call)
   if piv is None:
+    # a two-way split by a Boolean key: groupby([... , data[group] == treatment]) puts every row that is not in the named
+    # group into the other class -- rows of neither group (unassigned geos, NaN labels) are then counted as control /
+    # treatment, unless the rows were first restricted to the two groups
+    for n_ in g.nodes:
+      if n_.kind != 'stmt':
+        continue
+      for call_ in au.calls_in(n_.ast):
+        if not (isinstance(call_.func, ast.Attribute) and call_.func.attr == 'groupby' and call_.args):
+          continue
+        keys_ = rd.expand(n_, call_.args[0], depth=10)[0]
+        for k_ in (keys_.elts if isinstance(keys_, (ast.List, ast.Tuple)) else [keys_]):
+          core_ = k_
+          while isinstance(core_, ast.Call) and isinstance(core_.func, ast.Attribute) and core_.func.attr in ('rename', 'astype', 'to_numpy', 'copy'):
+            core_ = core_.func.value
+          if isinstance(core_, ast.Compare) and len(core_.ops) == 1 and isinstance(core_.ops[0], (ast.Eq, ast.NotEq)) \
+              and re.search(r'_groups\.(treatment|control)', norm(core_.comparators[0])) and re.search(r'_df_names\.group', norm(core_.left)):
+            whole_ = norm(rd.expand(n_, call_.func.value, depth=10)[0])
+            restricted_ = '.isin(' in whole_ and '_groups.control' in whole_ and '_groups.treatment' in whole_
+            rep.check3(True if restricted_ else (False if not au.aliens(core_, ()) else None), 'R4/aggregation', 'the two experiment arms are separated by label, rows of other groups are left out',
+                       f.qualname, norm(k_)[:120],
+                       'the rows are split by the Boolean key `%s`: every row whose group is not that one (unassigned geos, NaN labels) falls into the other arm and is added to its totals'
+                       % norm(k_)[:80], f.loc(call_), why_open='the grouping key reads unresolved names')
+            return
     rep.undecided('R4/aggregation', f.name, 'no pivot_table call', f.loc())
     return
   n, call = piv
@@ -325,7 +388,7 @@ def r6_pairing(repo, rep, cls):
     for (rn, rbase) in rows:
       for (ln, lbase) in labels:
         n_pairs += 1
-        le = norm(rd.expand(ln, lbase, depth=1)[0])
+        le = norm(rd.expand(ln, lbase, depth=1)[0]) if isinstance(lbase, ast.Name) else norm(au.data_core(lbase))       # geos = table.index, or table.index itself
         # label container must be <rbase>.index with rbase denoting the same definition
         m = re.fullmatch(r'(\w+)\.index(?:\.tolist\(\)|\.values|\.to_list\(\))?', le)
         same = False
